@@ -37,6 +37,11 @@ def statics_audit(cx, rule):
             kind = "task-local / thread-local (per task, not shared)"
         elif s.get("freeze"):
             kind = "immutable data"
+        elif re.match(r"^std::sync::(LazyLock|OnceLock)<", ty) or re.match(r"^(once_cell::sync::(Lazy|OnceCell)|lazy_static::lazy::Lazy)<", ty):
+            # written once at first use, read-only afterwards - unless what it holds is itself a cell
+            inner = ty[ty.index("<") + 1:]
+            if not re.search(r"\b(Mutex|RwLock|RefCell|Cell|UnsafeCell|Atomic[A-Z][A-Za-z0-9]*|DashMap|moka::|Sender|Receiver)\b|sync::atomic", inner):
+                kind = "initialised once, immutable afterwards (LazyLock / OnceLock of plain data: a compiled pattern, a table)"
         if kind is None:
             cx.ob(rule, "static:%s" % name.split("acts::", 1)[-1], False,
                   "static `%s` of type `%s` is a process-shared mutable cell: values could cross between processes" % (name, ty[:90]), "%s:%s" % (s["span"][0], s["span"][1]))
@@ -90,6 +95,8 @@ def run(cx):
     cx.floor("C13.R1", 4)
 
     statics_audit(cx, "C13.R2")
+    cx.rule("C13.R5", "K3", "a node tree belongs to one process: only Process (and the tree's own types, a task's node, a visitor) hold a NodeTree / Node - never an object that outlives or spans processes (nodes are mutated at run time: generated acts are appended to them)")
+    r5_tree_holders(cx)
 
     # ---- R3 keying -----------------------------------------------------------------------------
     g = m.one(r"^acts::cache::cache::Cache::push_proc_pri$")
@@ -190,3 +197,34 @@ def r4_shared_passes(cx):
     if n == 0:
         raise Anchor("no pass over Cache::procs() found")
     cx.floor("C13.R4", 1)
+
+
+TREE_HOLDERS = {
+    "acts::scheduler::process::process::Process": "the process owns its tree",
+    "acts::scheduler::process::task::Task": "a task points at its node of its process's tree",
+    "acts::scheduler::tree::node::Node": "links inside one tree",
+    "acts::scheduler::tree::node::NodeOutput": "links inside one tree",
+    "acts::scheduler::tree::node_tree::NodeTree": "the tree itself",
+    "acts::scheduler::tree::visit::Visitor": "a walk over one tree (exists for the duration of a call)",
+}
+
+
+def r5_tree_holders(cx):
+    m = cx.m
+    n = 0
+    for name, a in sorted(m.adts.items()):
+        if not name.startswith("acts::"):
+            continue
+        hit = []
+        for v in a["variants"]:
+            for f_, t in zip(v["fields"], v.get("ftys", [])):
+                if re.search(r"tree::node_tree::NodeTree\b|tree::node::Node\b", t):
+                    hit.append((f_, t))
+        if not hit:
+            continue
+        n += 1
+        ok = name in TREE_HOLDERS
+        cx.ob("C13.R5", "holder:%s" % name.split("acts::", 1)[-1], ok,
+              "`%s` holds a node tree / node (%s)%s" % (name.split("::")[-1], ", ".join("%s: %s" % (f_, t[:60]) for f_, t in hit[:2]),
+                                                       (": " + TREE_HOLDERS[name]) if ok else " - it is not one of the per-process holders: a tree kept there (a cache of built trees, a registry) is shared by every process built from it, and acts generated at run time by one process are scheduled by the others"), None)
+    cx.floor("C13.R5", 5)
